@@ -37,6 +37,12 @@ def cases(tier, seed):
         for r in range(rep):
             out.append({"kind": "full", "cls": "full:" + cls, "c": cls, "idx": idx, "seed": seed, "maxd": maxd})
             idx += 1
+    # size ladder: dimensions beyond plausible algorithm-switch thresholds (real embedding above 64 / 100 / 128 rows or columns)
+    for dims in ([(17, 17), (26, 27), (12, 30), (1, 32), (30, 12), (33, 9), (9, 33)] if tier == "quick" else
+                 [(a, b) for a in (1, 9, 17, 26, 33, 40, 64) for b in (1, 9, 16, 27, 33, 48, 65)]):
+        for cls in FULL:
+            out.append({"kind": "full", "cls": "full:" + cls, "c": cls, "idx": idx, "seed": seed, "maxd": maxd, "dims": list(dims)})
+            idx += 1
     for cls in DEF:
         for r in range(rep):
             out.append({"kind": "deficient", "cls": "deficient:" + cls, "c": cls, "idx": idx, "seed": seed, "maxd": maxd})
@@ -145,6 +151,9 @@ def _tags(ctx, A, extra=()):
 def _full(spec, ctx, R):
     rng = gen.rng_for(spec["seed"], "c06full", spec["idx"])
     m, n = _shape(rng, spec["maxd"], spec["idx"])
+    if "dims" in spec:
+        m, n = spec["dims"]
+        ctx.hit("size:ladder")
     c = spec["c"]
     if c == "gauss":
         A = refq.randq(rng, m, n)
